@@ -11,6 +11,9 @@ From V Require Import gen.Consts model.Fetcher proofs.Fetcher proofs.FetcherDet 
   proofs.FetcherProps proofs.FetcherProps2 proofs.FetcherLive proofs.FetcherExamples proofs.FetcherBridge
   proofs.FetcherChan proofs.FetcherArm.
 Import ListNotations.
+From Coq Require String.
+Import String.StringSyntax.
+Delimit Scope string_scope with string.
 Open Scope N_scope.
 
 (* the cap re-read from the source (K_VALUE) is positive *)
@@ -268,3 +271,28 @@ Theorem run_items_sound : forall its s,
   run_ok s (expand s its) = true /\
   last_state s (expand s its) = fold_left (fun _ it => item_post it) its s.
 Proof. exact run_items_sound_lemma. Qed.
+
+(* ---- which fetcher method the arms of handle_local_cmd call (re-read from cmd.rs on every run) ---- *)
+Theorem fetch_completed_arm_is_early : forall k t, fetch_completed_arm k t = Some (NotifyEarly k t).
+Proof. exact fetch_completed_arm_is_early_lemma. Qed.
+
+Theorem put_arm_calls_in_order : forall fk k t r,
+  put_arm_calls = map op_method (arm_ops (PutMaxRecords fk) k t (Some r)).
+Proof. exact put_arm_calls_lemma. Qed.
+
+(* an early completion of (k, t) ends exactly the fetch of that record version: every other unexpired
+   in-flight fetch -- in particular another version of the same key -- keeps running *)
+Theorem early_completion_exact : forall pre k t out post,
+  reachable pre -> step_ok pre (NotifyEarly k t) out post = true ->
+  (forall e, In e (ongoing pre) -> fst e <> (k, t) -> ~ expired pre e -> In e (ongoing post)) /\
+  (forall e, In e (ongoing pre) -> fst e = (k, t) ->
+     forall e', In e' (ongoing post) -> fst e' = fst e -> In (og_pair e') (ret out)).
+Proof. exact early_completion_exact_lemma. Qed.
+
+(* calling the arrival notification there instead drops the other version's running fetch *)
+Theorem put_notification_drops_other_version :
+  exists pre k t t' e out post,
+    reachable pre /\ t <> t' /\ In e (ongoing pre) /\ fst e = (k, t') /\ ~ expired pre e /\
+    arm_method_op "notify_about_new_put"%string k t = Some (NotifyPut k t) /\
+    step_ok pre (NotifyPut k t) out post = true /\ ~ In e (ongoing post).
+Proof. exact put_notification_drops_other_version_lemma. Qed.
